@@ -9,8 +9,11 @@ Driver handlers for C15.
   * tree (preorder, comma separated): `L<n>` = `create` + `add_input` of the next `n` values,
     `B<n>` = `build_from_group` of the next `n` values, `M` = `left.merge(right)`
   * `aq` = `ApproxQuantiles::finish`, `raw` = `TDigest::quantiles` on the merged digest, `med` = `ApproxMedian::finish`
-  answer (`full`): `Q F… | S <#centroids> Ftotal Fmin Fmax | C Fmean Fweight … | D F… | INV I<j>…`
-  (state of the merged digest *before* finish; `INV` = positions where the estimate decreases although q does not)
+  answer (`full`): `Q F… | S <#centroids> Ftotal Fmin Fmax | C Fmean Fweight … | D F… | INV <B|S|U><j>…`
+  (state of the merged digest *before* finish; `INV` = positions `j` where the estimate decreases although q does
+  not, each with WHERE it sits on the digest that was queried (the merged one for `raw`, its `compress` for
+  `aq`/`med`): `B` = the covering centroid changes between `q_j` and `q_{j+1}` (`TDigest.cover`), `S` = same
+  covering branch, `U` = the centroids walked are not sorted by mean)
   answer (`q`): `Q F…`
 
 `KMV <k> <new|raw> <full|est> <tree> <ranks>`  (`new` = k goes through `KMVApproxDistinctCount::new`)
@@ -28,13 +31,14 @@ def float? (s : String) : Option Float :=
 def floats? (s : String) : Option (List Float) :=
   if s == "-" then some [] else (s.splitOn ",").mapM float?
 
+def nan : Float := 0.0 / 0.0
+def inf : Float := 1.0 / 0.0
+
 def ftok (x : Float) : String := "F" ++ F.toDecimal x
 def otok (d : Float) : Option Float → String
   | some x => ftok x
   | none => ftok d
 
-def nan : Float := 0.0 / 0.0
-def inf : Float := 1.0 / 0.0
 
 inductive Shape where
   | leaf (n : Nat) | built (n : Nat) | node (l r : Shape)
@@ -75,6 +79,18 @@ def fillK {β : Type} : Shape → List β → Option (KTree β × List β)
       let (b, xs) ← fillK r xs
       pure (.node a b, xs)
 
+/-- are the centroids `quantile` walks sorted by mean? -/
+def sortedMeans : List (Centroid Float) → Bool
+  | a :: b :: rest => a.mean ≤ b.mean && sortedMeans (b :: rest)
+  | _ => true
+
+/-- where an inversion between the grid points `q1 ≤ q2` sits on the digest `dq` that was queried:
+    `U` unsorted centroids, `S` same covering branch, `B` the covering centroid changes (a centroid boundary) -/
+def invKind (dq : TDigest Float) (q1 q2 : Float) : String :=
+  if !sortedMeans dq.centroids then "U" else if dq.cover q1 == dq.cover q2 then "S" else "B"
+
+def nth (qs : List Float) (i : Nat) : Float := (qs[i]?).getD nan
+
 def inversions (qs : List Float) (es : List (Option Float)) : List Nat :=
   let rec go (i : Nat) : List (Float × Option Float) → List Nat
     | (q1, some e1) :: (q2, some e2) :: rest =>
@@ -107,8 +123,12 @@ def handleTDigest : List String → String
             let spart := joinToks ["S", toString d.centroids.length, ftok d.total, otok inf d.min, otok (-inf) d.max]
             let cpart := joinToks ("C" :: d.centroids.flatMap (fun c => [ftok c.mean, ftok c.weight]))
             let dpart := joinToks ("D" :: cdfs.map (fun v => ftok (d.cdf v)))
-            let inv := inversions qs es
-            let ipart := joinToks ("INV" :: (if inv.isEmpty then ["-"] else inv.map (fun i => "I" ++ toString i)))
+            -- the grid the estimates belong to, and the digest `quantile` ran on (`finish` compresses once more)
+            let qsEff := if fin == "med" then [0.5] else qs
+            let dq := if fin == "raw" then d else d.compress
+            let inv := inversions qsEff es
+            let ipart := joinToks ("INV" :: (if inv.isEmpty then ["-"] else
+              inv.map (fun i => invKind dq (nth qsEff i) (nth qsEff (i + 1)) ++ toString i)))
             qpart ++ " | " ++ spart ++ " | " ++ cpart ++ " | " ++ dpart ++ " | " ++ ipart
           else "BAD-OP"
       | _ => "BAD-OP"
